@@ -78,7 +78,7 @@ class Harness:
         ts = []
         base = os.path.splitext(self.source)[0]
         for g in gnames:
-            defs = ["GROUP=" + S.cpp_type(g)] + self.extra
+            defs = ["GROUP=" + S.cpp_type(g), "FAM_" + family(g)] + self.extra
             if g.startswith("Bundle"):
                 defs.append("VS_NO_TRANSFORM")   # Bundle::transform has its own harness (C11)
             tag = S.file_tag(g)
@@ -134,9 +134,20 @@ def spec_for(alg, gname):
 
 
 def mk_inputs(gname, decl, zero=0, one=1):
-    """decl: list of (prefix, kind); specs over plain ints only provide sizes / names"""
+    """decl: list of (prefix, kind) | (prefix, 'M'|'U', n) | (prefix, 'G'|'T', other group name);
+    specs over plain ints only provide sizes / names"""
     sp = S.make_spec(gname, zero, one)
-    return [Inp(p, k, sp) for p, k in decl]
+    out = []
+    for d in decl:
+        if len(d) == 2:
+            out.append(Inp(d[0], d[1], sp))
+        elif d[1] in ("M", "U"):
+            out.append(Inp(d[0], d[1], None, d[2]))
+        else:
+            i = Inp(d[0], d[1], S.make_spec(d[2], zero, one))
+            i.other = d[2]
+            out.append(i)
+    return out
 
 
 def ctx_for(rep, label, path, gname, decl, native=None, seed=0, exact_valid=True):
@@ -145,11 +156,17 @@ def ctx_for(rep, label, path, gname, decl, native=None, seed=0, exact_valid=True
     c = PathCtx(rep, label, path, tmp, native=native, seed=seed, exact_valid=False)
     sp = spec_for(c.alg, gname)
     for i in c.inputs:
-        i.spec = sp
+        if getattr(i, "other", None):
+            i.spec = spec_for(c.alg, i.other)
+        elif i.spec is not None:
+            i.spec = sp
     if exact_valid:
         for i in c.inputs:
             if i.kind == "G":
-                for e in sp.valid_eqs(c.E[i.prefix]):
+                for e in i.spec.valid_eqs(c.E[i.prefix]):
                     c.alg.add_relation(e)
+            if i.kind == "U":
+                v = c.E[i.prefix]
+                c.alg.add_relation(sum((x * x for x in v), c.alg.R.zero) - 1)
     c.spec = sp
     return c
